@@ -189,6 +189,7 @@ def run(ctx):
         # the offset is used to slice bytes
         ip = im.calls_to(r"code_parser::CodePosition::character$")
         ctx.check(len(ip) == 1, P, "insert-pos-once", "one insertion offset per entry", im.where())
+    rule_same_text(ctx, facts, P)
     # ---- R3 verdict --------------------------------------------------------------------------
     P = "C05-R3"
     ch = edit.anchor(ctx, facts, P, edit.CHECK, "check_references")
@@ -357,3 +358,55 @@ def _sum_rule(ctx, r, prefix, key, ty, field):
         inits = [op_const(d[2]["rv"]["op"]).get("int") for d in r.defs.get(acc["l"], []) if d[1] == "assign" and d[2]["rv"]["k"] == "use" and op_const(d[2]["rv"]["op"]) is not None] if acc else []
         ok = elem and bb in cyc and inits == [0]
     ctx.check(ok, prefix, "sum|" + key, "%s is a plain sum over every map result, starting at 0" % key, r.where())
+
+
+def rule_same_text(ctx, facts, prefix):
+    """byte offsets and line/columns are relative to the very text that edit mode slices: the
+    string given to map is the one given to find_references, which hands it unmodified to the
+    finder, which hands it unmodified to the pest parser."""
+    from .c12 import pure_chain_root
+    pr = facts.one(edit.PROCESS)
+    if ctx.check(pr is not None, prefix, "anchor|process_references", "process_references async block found", ""):
+        fr = pr.calls_to(r"code_parser::find_references$")
+        mp = pr.calls_to(r"ReferenceProcessor(<.*>)?>?::map")
+        if ctx.check(len(fr) == 1 and len(mp) == 1, prefix, "anchor|find-map", "find_references and map calls found", pr.where()):
+            a = _string_local(pr, fr[0].args[1])
+            b = _string_local(pr, mp[0].args[1])
+            ctx.check(a is not None and a == b, prefix, "text-same-string", "the text that is parsed is the text that map slices (same String)", fr[0].where())
+            # entries given to map are the parse result of that text
+            prov = Prov(pr)
+            o = prov.origins_op(mp[0].args[3])
+            ctx.check(bool(o) and all(x[0] == "call" and x[1].bb == fr[0].bb for x in o), prefix, "entries-of-text", "the entries given to map are the ones found in that text", mp[0].where())
+    fr_b = facts.one(r"code_parser::find_references$")
+    if ctx.check(fr_b is not None, prefix, "anchor|find_references", "find_references found", ""):
+        cs = fr_b.calls_to(r"rust_log_ref_finder::find$")
+        ok = len(cs) >= 1 and all(pure_chain_root(fr_b, c.args[0]) == ("param", 2) for c in cs)
+        ctx.check(ok, prefix, "text-unmodified|find_references", "find_references passes its `code` argument to the finder unmodified (no trimming, BOM stripping, normalisation)", fr_b.where())
+    f = facts.one(r"rust_log_ref_finder::find$")
+    if ctx.check(f is not None, prefix, "anchor|find", "the Rust finder found", ""):
+        pc = [c for c in f.calls if c.matches(r"::parse$") and ("RustParser" in c.func.get("full", "") or "pest::Parser" in (c.declared or ""))]
+        ok = len(pc) == 1 and pure_chain_root(f, pc[0].args[1]) == ("param", 1)
+        ctx.check(ok, prefix, "text-unmodified|find", "the finder parses exactly its `code` argument (span offsets are offsets into it)", pc[0].where() if pc else f.where())
+        if pc:
+            k = single_def(f, op_place(pc[0].args[0])["l"]) if op_place(pc[0].args[0]) else None
+            rule_ok = k is not None and k[1] == "assign" and k[2]["rv"]["k"] == "agg" and k[2]["rv"].get("variant") == "file"
+            ctx.check(rule_ok, prefix, "parse-rule", "the whole-file rule `file` is parsed (SOI … EOI)", pc[0].where())
+
+
+def _string_local(body, op, depth=0):
+    p = op_place(op)
+    if p is None or depth > 8:
+        return None
+    d = single_def(body, p["l"])
+    if d is None:
+        return p["l"]
+    if d[1] == "call":
+        if d[2].matches(r"String as std::ops::Deref>::deref$|String::as_str$|::deref$|::as_str$") and d[2].args:
+            return _string_local(body, d[2].args[0], depth + 1)
+        return p["l"]
+    rv = d[2]["rv"]
+    if rv["k"] == "ref" and not [e for e in rv["place"]["p"] if e != "*"]:
+        return _string_local(body, {"copy": {"l": rv["place"]["l"], "p": []}}, depth + 1)
+    if rv["k"] == "use" and op_place(rv["op"]) and not op_place(rv["op"])["p"]:
+        return _string_local(body, rv["op"], depth + 1)
+    return p["l"]
